@@ -18,6 +18,8 @@ the original and emits the tokens (the write cursor is made explicit in `splitPo
 -/
 import Sqfs.Model.Path
 import Sqfs.Generated.Consts
+deriving instance DecidableEq for Except
+
 namespace Sqfs.Quote
 open Sqfs.Path (Bytes)
 
